@@ -67,7 +67,7 @@ package txnlock
 //@ func (*LockResolver) getTxnStatus
 //@   trusted
 //@   modifies nothing
-//@   ensures result1 == nil && result0.ttl == 0 ==> result0.commitTS == reported(txnID)
+//@   ensures result1 == nil && result0.ttl == 0 && (lockInfo == nil || !lockInfo.IsPessimistic()) ==> result0.commitTS == reported(txnID)
 // checkAllSecondaries seeds the accumulated timestamp with the primary lock's min-commit-ts, and no check of a region's
 // secondaries lowers it: unless a lock turned out to be missing (then the store's report decides), the derived commit
 // timestamp is not below the primary's min-commit-ts. (That the derived timestamp is "the" outcome of the transaction,
@@ -92,8 +92,11 @@ package txnlock
 //@   loop 1 invariant mono: !shared.missingLock ==> !old(shared.missingLock) && shared.commitTs >= old(shared.commitTs)
 //@   at call(SendReq) assert request: arg_regionID == curRegionID && checkReq.StartVersion == txnID && checkReq.Keys == curKeys && arg_req != nil && arg_req.Req.(*kvrpcpb.CheckSecondaryLocksRequest) == checkReq
 //@   ensures mono: !shared.missingLock ==> !old(shared.missingLock) && shared.commitTs >= old(shared.commitTs)
+// (The status looked up through a PESSIMISTIC lock says nothing about the transaction - the primary named by such a lock
+// may not be the real one - so it must not be recorded for the region-wide resolve: the assumption on getTxnStatus is
+// stated for other locks only, and the `infos` invariant then rejects recording it.)
 //@ func (*LockResolver) BatchResolveLocks
-//@   prop C04
+//@   prop C04 C14
 //@   may-panic
 //@   requires bo != nil
 //@   opaque-callee resolvePessimisticLock GetRegionError RequestSourceFromCtx ResourceGroupNameFromCtx
